@@ -766,7 +766,7 @@ func (f *Frame) havocTarget(env *SpecEnv, c Clause, heap, pre *Heap) (*Heap, err
 			heap = heap.Set(mv, vc.Define("h."+mv, Store(heap.Comp(mv, ArraySort(SInt, ArraySort(ks, vs))), v.T, vc.Fresh("hv", ArraySort(ks, vs)))))
 			sz := vc.Fresh("hv", SInt)
 			vc.Assume(Ge(sz, IntLit(0)))
-			heap = heap.Set(mapSizeComp, vc.Define("h.MS", Store(heap.Comp(mapSizeComp, ArraySort(SInt, SInt)), v.T, sz)))
+			heap = heap.Set(mapSizeComp(ks, vs), vc.Define("h.MS", Store(heap.Comp(mapSizeComp(ks, vs), ArraySort(SInt, SInt)), v.T, sz)))
 			return heap, nil
 		}
 		return heap, fmt.Errorf("modifies x[*]: x is neither slice nor map")
@@ -884,7 +884,8 @@ func (f *Frame) builtin(b *ssa.Builtin, ins ssa.CallInstruction, st State) (Stat
 		case *types.Basic:
 			return st, Val{T: StrLen(x)}
 		case *types.Map:
-			return st, Val{T: Ite(Eq(x, IntLit(0)), IntLit(0), Sel(st.Heap.Comp(mapSizeComp, ArraySort(SInt, SInt)), x))}
+			mks, mvs := f.w.Sorts.SortOf(u.Key()), f.w.Sorts.SortOf(u.Elem())
+			return st, Val{T: Ite(Eq(x, IntLit(0)), IntLit(0), Sel(st.Heap.Comp(mapSizeComp(mks, mvs), ArraySort(SInt, SInt)), x))}
 		case *types.Array:
 			return st, Val{T: IntLit(u.Len())}
 		case *types.Pointer:
@@ -911,13 +912,13 @@ func (f *Frame) builtin(b *ssa.Builtin, ins ssa.CallInstruction, st State) (Stat
 		}
 		mdn := mapDomComp(ks, vs)
 		md := st.Heap.Comp(mdn, ArraySort(SInt, ArraySort(ks, SBool)))
-		ms := st.Heap.Comp(mapSizeComp, ArraySort(SInt, SInt))
+		ms := st.Heap.Comp(mapSizeComp(ks, vs), ArraySort(SInt, SInt))
 		was := And(Ne(m, IntLit(0)), Sel(Sel(md, m), k))
 		// delete on a nil map is a no-op
 		nmd := Ite(Eq(m, IntLit(0)), md, Store(md, m, Store(Sel(md, m), k, False)))
 		nms := Ite(was, Store(ms, m, Sub(Sel(ms, m), IntLit(1))), ms)
 		st.Heap = st.Heap.Set(mdn, vc.Define("h."+mdn, nmd))
-		st.Heap = st.Heap.Set(mapSizeComp, vc.Define("h.MS", nms))
+		st.Heap = st.Heap.Set(mapSizeComp(ks, vs), vc.Define("h.MS", nms))
 		return st, Val{T: IntLit(0)}
 	case "recover":
 		// recover() inside a deferred call: returns the panic value and stops the
